@@ -544,7 +544,7 @@ void installHandlers() {
   sa.sa_handler = crashHandler;
   sa.sa_flags = SA_ONSTACK | SA_NODEFER;
   sigemptyset(&sa.sa_mask);
-  for (int s : {SIGSEGV, SIGBUS, SIGFPE, SIGILL, SIGABRT}) sigaction(s, &sa, nullptr);
+  for (int s : {SIGSEGV, SIGBUS, SIGFPE, SIGILL, SIGABRT, SIGALRM}) sigaction(s, &sa, nullptr);
 }
 } // namespace
 
@@ -558,7 +558,7 @@ std::string Trapped::str() const {
   return "?";
 }
 
-Trapped runTrapped(const std::function<int()> &f) {
+Trapped runTrapped(const std::function<int()> &f, unsigned watchdogSeconds) {
   installHandlers();
   Trapped t;
   int savedDepth = g_harnessDepth;
@@ -566,6 +566,7 @@ Trapped runTrapped(const std::function<int()> &f) {
     g_harnessDepth = savedDepth;
     g_exitArmed = false;
     g_tainted = true;
+    alarm(0);
     t.kind = Trapped::CRASHED;
     t.signal = g_crashSig;
     return t;
@@ -575,11 +576,13 @@ Trapped runTrapped(const std::function<int()> &f) {
     g_harnessDepth = savedDepth;
     g_crashArmed = 0;
     g_exitArmed = false;
+    alarm(0);
     t.kind = Trapped::EXITED;
     t.status = g_exitCode;
     return t;
   }
   g_exitArmed = true;
+  if (watchdogSeconds) alarm(watchdogSeconds);
   try {
     t.status = f();
     t.kind = Trapped::RETURNED;
@@ -592,6 +595,7 @@ Trapped runTrapped(const std::function<int()> &f) {
     t.kind = Trapped::THREW;
     t.what = "(non-std exception)";
   }
+  alarm(0);
   g_exitArmed = false;
   g_crashArmed = 0;
   g_harnessDepth = savedDepth;
